@@ -5,6 +5,7 @@ import Ptn.C02.SplitSpec
 import Ptn.C02.ContractWF
 import Ptn.C02.SplitWF
 import Ptn.C02.OpsWF
+import Ptn.C02.TruncWF
 /-! Property theorems for C02.  Only property theorems and non-vacuity examples live here (part 1,
 the Node machine, is in `NodeProps.lean`, imported here); helper lemmas are in `Lemmas.lean`,
 `NodeSpec.lean`, `TTNLemmas.lean`, `ContractSpec.lean`, ….
@@ -265,7 +266,7 @@ theorem contract_nodes_structure {t t' : TTN} {id1 id2 new : Id} (h : t.WF)
       (∀ k, dget t'.tensors k = if k = new then some newT
                                 else if k = pid ∨ k = cid then none else dget t.tensors k) ∧
       t'.root = (if P.parent = none then some new else t.root) := by
-  obtain ⟨pid, cid, P, C, nn, newT, hP, hC, hCp, hids, _, n1, _, _, _, n5, a1, a2, a3, a4, a5, a6⟩ :=
+  obtain ⟨pid, cid, P, C, nn, newT, hP, hC, hCp, hids, _, n1, _, _, _, n5, _, a1, a2, a3, a4, a5, a6⟩ :=
     contract_final h hnew hc
   exact ⟨pid, cid, P, C, nn, newT, hP, hC, hCp, hids, a1, n1, n5, a2, a3, a4, a5, a6⟩
 
@@ -296,7 +297,7 @@ theorem split_nodes_structure {t t' : TTN} {id : Id} {X : NodeS} {outL inL : TTN
         (t.N k = none → t'.N k = none) ∧
         (∀ n, t.N k = some n → ∃ n', t'.N k = some n' ∧ SRel id a b aCh k n n')) ∧
       t'.root = (if X.parent = none then some a else t.root) := by
-  obtain ⟨a, b, aCh, bCh, na, nb, _, _, hcfg, _, hNa, hNb, p1, p2, p3, p4, _, _, _, _, hid, hby, _, hR⟩ :=
+  obtain ⟨a, b, aCh, bCh, na, nb, _, _, hcfg, _, hNa, hNb, p1, p2, p3, p4, _, _, _, _, hid, hby, _, hR, _⟩ :=
     split_final h adm hs
   exact ⟨a, b, aCh, bCh, na, nb, hcfg, hNa, hNb, p1, p2, p3, p4, hid, hby, hR⟩
 
@@ -376,5 +377,44 @@ example : ∃ t', TRun TTN.empty
       (.nil _))))))))⟩
   obtain ⟨t', hr⟩ := hrun
   exact ⟨t', hr, built_networks_wf hr⟩
+
+/-! ### Part 4 — composite edits (TDVP updates, centre moves, truncation) restore the tree
+
+The algorithms never call a structural edit alone: they split a node and contract the piece into the
+neighbour (`_update_link`, `split_qr_contract_r_to_neighbour`), contract two nodes and split them again
+(`_update_two_site_nodes`, `contract_and_split_with_parent`), or insert, split and re-contract projectors
+(`recursive_truncation`).  `Composite.lean` models these line by line; the readable, per-operation statements
+(including the exact child order afterwards) are exported as `Ptn.C06.*_structure_partial`
+(`Ptn/C06/Structure.lean`) and `Ptn.C10.*_structure_partial` (`Ptn/C10/Tree.lean`). -/
+
+/-- **Every sequence of composite edits** – tensor accesses, one-site link updates, two-site updates, centre
+    moves, `contract_and_split_with_parent` – each with an unused temporary identifier and any new bond
+    dimension, keeps the network well-formed and preserves the root and the tree (`TreeEq`: same
+    identifiers, same parent of every node, children lists equal up to order). -/
+theorem composite_edits_preserve_tree {t t' : TTN} {es : List TdvpEvent} (h : t.WF) (hr : TdvpRun t es t') :
+    t'.WF ∧ t'.root = t.root ∧ TreeEq t.S t'.S :=
+  tdvp_run_structure h hr
+
+/-- **`recursive_truncation`** (between its canonicalisations; any kept bond dimensions) returns a well-formed
+    network with the same root and exactly the same structure: identifiers, parents, children lists in the
+    same order. -/
+theorem recursive_truncation_restores_structure {t t' : TTN} {kdim : Id → Nat} (h : t.WF)
+    (hs : t.recursiveTruncation kdim = some t') : t'.WF ∧ t'.root = t.root ∧ t'.S = t.S :=
+  recursive_truncation_full h hs
+
+set_option maxRecDepth 8192 in
+/-- Non-vacuity: on the network `1 — {2 — {4}, 3}` built from nothing, a run of composite edits
+    (`3 → 1` centre move, access, link update `1 → 2`, two-site update `(2, 4)`, contract-and-split `(3, 1)`)
+    exists and changes the child order of `1` from `[2, 3]` to `[3, 2]`; `recursive_truncation` succeeds on
+    the same network and gives back the structure. -/
+example : ∃ t t' t'', TRun TTN.empty
+      [.root 1 [⟨0, 2⟩, ⟨100, 3⟩, ⟨101, 2⟩], .child 2 [⟨100, 3⟩, ⟨1, 2⟩, ⟨102, 2⟩] 0 1 1,
+       .child 3 [⟨2, 2⟩, ⟨101, 2⟩] 1 1 2, .child 4 [⟨102, 2⟩, ⟨3, 3⟩] 0 2 2] t ∧
+    TdvpRun t [.move 3 1 60 2, .access 1, .link 1 2 61 3, .twoSite 2 4 62 1, .contractSplit 3 1 63 2] t' ∧
+    t.S 1 = some (none, [2, 3]) ∧ t'.S 1 = some (none, [3, 2]) ∧
+    t.recursiveTruncation (fun c => if c = 2 then 2 else 1) = some t'' ∧ t''.S 1 = some (none, [2, 3]) :=
+  ⟨_, _, _, .cons ⟨rfl, rfl⟩ rfl (.cons trivial rfl (.cons trivial rfl (.cons trivial rfl (.nil _)))),
+    .cons rfl rfl (.cons trivial rfl (.cons rfl rfl (.cons rfl rfl (.cons rfl rfl (.nil _))))),
+    rfl, rfl, rfl, rfl⟩
 
 end Ptn.C02
